@@ -45,7 +45,7 @@ static inline struct ref_out ref_decode_call(EDEV* r, const symbol_t* data, size
       }
       r->m_extraFeatures = d;
       ev_add(&o.ev, (d & 0x01) ? EV_RESET_INFO : EV_RESET);
-      if (r->m_resetRequested) { r->m_resetRequested = 0; if (d & 0x01) { o.reqinfos = o.reqinfos + 1; } continue; }
+      if (r->m_resetRequested) { r->m_resetRequested = 0; if (d & 0x01) { o.reqinfos = o.reqinfos + 1; if (g_reqinfo_ok) { r->m_infoBuf[0] = 0; r->m_infoLen = 1; r->m_infoPos = 1; } else { r->m_infoLen = 0; r->m_infoPos = 0; } } continue; }
       o.closes = o.closes + 1;                        /* self-reset of the adapter: reopen */
       if (r->m_arbitrationMaster != 0xAA) { o.arb = as_error; r->m_arbitrationMaster = 0xAA; r->m_arbitrationCheck = 0; }
       continue;
